@@ -105,7 +105,9 @@ OPNAMES = ["SetRange", "DelRange", "AddPoly", "RmPoly", "ModPoly",
 UNKNOWN_FEATURE = "nosuchfeat"   # not a dclab feature: apply_filter(force=) raises
 UNKNOWN_ID = 999
 TEMP = ["vtmp_a", "vtmp_b"]      # temporary features (registered on demand)
-VARIANT = 3                      # repairs of Filter.update present in the model
+VARIANT = 4                      # repairs of Filter.update present in the model
+NO_INSTANCE = 777                # a polygon filter id without instance
+OPAQUE = ("emodulus",)           # values only matter as NaN / inf / finite
 RANGE_TAGS = (T_SETRANGE, T_DELRANGE, T_SETMIN, T_SETMAX, T_DELMIN, T_DELMAX)
 
 
@@ -164,9 +166,7 @@ def gen_bound(rng, col):
         return [0, rng.choice(fin) + rng.choice([-1, 1])]
     if r < 0.85:
         return [0, rng.randint(min(fin) - 3, max(fin) + 3)]
-    if r < 0.97:
-        return [rng.choice([2, 3]), 0]
-    return [1, 0]
+    return [rng.choice([2, 3]), 0]
 
 
 def gen_points(rng, colx, coly):
@@ -213,14 +213,42 @@ def gen_case(rng, thorough=False, maxops=60):
             cols[name] = data[name]
             computed.append(name)
         computed.append("ml_class")
-    present = sorted(present + computed)
+    kind = "child" if rng.random() < 0.15 else "dict"
+    emod = False
+    if kind == "dict" and rng.random() < 0.05:
+        # a genuinely LAZY ancillary scalar feature (not in FEATURES_RAPID):
+        # emodulus from area_um + deform with the LUT settings; NaN outside
+        # the LUT while area_um and deform are finite
+        emod = True
+        for f in ("area_um", "deform"):
+            if f not in data:
+                data[f] = [[0, rng.randint(0, 40)] for _ in range(n)]
+                cols[f] = data[f]
+                computed.append(f)
+        if "area_um" in absent or "deform" in absent:
+            absent = []
+    present = sorted(set(present + computed))
+    temp = {}
+    temp_alt = {}
+    # temporary features (not on hierarchy children: setting one there
+    # rejuvenates the child, which is an application of its own)
+    for name in TEMP[:rng.choice([0, 1, 1, 2]) if kind == "dict" else 0]:
+        temp[name] = gen_column(rng, n)
+        cols[name] = temp[name]
     axes_pool = [f for f in present if f != "ml_class"] + ["index"]
     nver = rng.randint(1, 4)
     versions = []
     for _ in range(nver):
-        ax = [rng.choice(axes_pool), rng.choice(axes_pool)]
-        versions.append(dict(axes=ax, points=gen_points(rng, cols[ax[0]],
-                                                        cols[ax[1]])))
+        pool = axes_pool
+        c = rng.random()
+        if c < 0.12 and temp:
+            pool = axes_pool + sorted(temp)      # polygon on a temporary feature
+        elif c < 0.2 and absent:
+            pool = axes_pool + absent            # ... on a feature the dataset lacks
+        ax = [rng.choice(pool), rng.choice(pool)]
+        versions.append(dict(axes=ax, points=gen_points(
+            rng, cols.get(ax[0], [[0, 0], [0, 8]]),
+            cols.get(ax[1], [[0, 0], [0, 8]]))))
     # the same vertices on other axes (swapped, or one axis replaced)
     twins = {}
     for v in range(nver):
@@ -243,20 +271,16 @@ def gen_case(rng, thorough=False, maxops=60):
     reg = [[i, rng.randrange(nver), rng.choice([0, 0, 1])]
            for i in range(npoly)]
     pv = {i: v for i, v, _ in reg}          # current version of a polygon
-    temp = {}
-    temp_alt = {}
-    # a share of the cases runs on a hierarchy child of an unfiltered parent
-    # (HierarchyFilter); no temporary features there: setting one on a child
-    # rejuvenates it, which is an application of its own
-    kind = "child" if rng.random() < 0.15 else "dict"
-    for name in TEMP[:rng.choice([0, 1, 1, 2]) if kind == "dict" else 0]:
-        temp[name] = gen_column(rng, n)
-        cols[name] = temp[name]
-        if rng.random() < 0.5:
+    axis_feats = set(a for v in versions for a in v["axes"])
+    for name in temp:
+        # data are replaced only for features that are no polygon axis (the
+        # polygon cache has no data hash and `force` does not reach it)
+        if name not in axis_feats and rng.random() < 0.6:
             temp_alt[name] = [gen_column(rng, n)
                               for _ in range(rng.randint(1, 2))]
     tstate = {name: "unset" for name in temp}   # unset / present / deregistered
-    rfeats = present + ["index"] + absent + sorted(temp)   # features ranges may name
+    noem = [f for f in present if f not in OPAQUE]
+    rfeats = noem + ["index"] + absent + sorted(temp)   # features ranges may name
     ops = []
     nops = rng.randint(1, maxops)
     have = set()
@@ -280,12 +304,20 @@ def gen_case(rng, thorough=False, maxops=60):
         if ops:
             track(ops[-1])
         # ranges of a deregistered temporary feature cannot be edited
-        rfeats = [f for f in present + ["index"] + absent + sorted(temp)
+        rfeats = [f for f in noem + ["index"] + absent + sorted(temp)
                   if tstate.get(f) != "deregistered"]
+        dereg_keys = [f for f in temp if tstate[f] == "deregistered"
+                      and keys.get(f)]
+        if dereg_keys and rng.random() < 0.15:
+            # popping a key of a deregistered temporary feature works (its
+            # ranges are ignored, also when left with one key)
+            f = rng.choice(sorted(dereg_keys))
+            which = rng.choice(sorted(keys[f]))
+            ops.append([T_DELMIN if which == "min" else T_DELMAX, [f], []])
+            continue
         if temp and rng.random() < 0.07:
             name = rng.choice(sorted(temp))
-            if tstate[name] == "present" and len(keys.get(name, ())) != 1 \
-                    and rng.random() < 0.5:
+            if tstate[name] == "present" and rng.random() < 0.5:
                 ops.append([T_DELFEAT, [name], []])
                 tstate[name] = "deregistered"
             elif tstate[name] == "present" and name in temp_alt \
@@ -329,7 +361,7 @@ def gen_case(rng, thorough=False, maxops=60):
             else:
                 ops.append([t, [f], []])
         elif r < 0.22:
-            f = rng.choice(rfeats if rng.random() < 0.9 else absent)
+            f = rng.choice(rfeats if rng.random() < 0.9 or not absent else absent)
             col = cols.get(f, [[0, 0], [0, 8]])
             lo, hi = gen_bound(rng, col), gen_bound(rng, col)
             c = rng.random()
@@ -349,11 +381,18 @@ def gen_case(rng, thorough=False, maxops=60):
             have.discard(f)
         elif r < 0.41 and npoly:
             pid = rng.randrange(npoly)
+            if rng.random() < 0.04:
+                pid = NO_INSTANCE            # KeyError at the next application
             ops.append([T_ADDPOLY, [pid], []])
             polys_in.append(pid)
         elif r < 0.46 and npoly:
-            pid = rng.choice(polys_in) if polys_in and rng.random() < 0.9 \
-                else rng.randrange(npoly)
+            bad = [p_ for p_ in polys_in if p_ == NO_INSTANCE or
+                   any(a in absent for a in versions[pv[p_]]["axes"])]
+            if bad and rng.random() < 0.6:
+                pid = rng.choice(bad)        # get rid of the raising one
+            else:
+                pid = rng.choice(polys_in) if polys_in and \
+                    rng.random() < 0.9 else rng.randrange(npoly)
             ops.append([T_RMPOLY, [pid], []])
             if pid in polys_in:
                 polys_in.remove(pid)
@@ -393,7 +432,7 @@ def gen_case(rng, thorough=False, maxops=60):
             ops.append([T_APPLY, force, []])
     if rng.random() < 0.12:
         # an application that raises between two settings of the same range
-        g, f = rng.sample(present + ["index"] + absent, 2)
+        g, f = rng.sample(noem + ["index"] + absent, 2)
         cg = cols.get(g, [[0, 0], [0, 8]])
         ra = [gen_bound(rng, cg), gen_bound(rng, cg)]
         rb = [gen_bound(rng, cg), gen_bound(rng, cg)]
@@ -405,6 +444,28 @@ def gen_case(rng, thorough=False, maxops=60):
         k = rng.randint(0, len(ops))
         ops[k:k] = seq
     ops.append([T_APPLY, [], []])
+    if rng.random() < 0.1:
+        # an application that raises KeyError (polygon filter without
+        # instance, or on a feature the dataset lacks) between two settings of
+        # the same range
+        g = rng.choice(noem + ["index"])
+        cg = cols.get(g, [[0, 0], [0, 8]])
+        ra = [gen_bound(rng, cg), gen_bound(rng, cg)]
+        rb = [gen_bound(rng, cg), gen_bound(rng, cg)]
+        badv = [i for i, v in enumerate(versions)
+                if any(a in absent for a in v["axes"])]
+        if badv and npoly and rng.random() < 0.5:
+            pid = rng.randrange(npoly)
+            seq = [[T_SETRANGE, [g], ra], [T_APPLY, [], []],
+                   [T_SETRANGE, [g], rb], [T_MODPOLY, [pid, rng.choice(badv)], []],
+                   [T_ADDPOLY, [pid], []], [T_APPLY, [], []],
+                   [T_RMPOLY, [pid], []], [T_SETRANGE, [g], ra]]
+        else:
+            seq = [[T_SETRANGE, [g], ra], [T_APPLY, [], []],
+                   [T_SETRANGE, [g], rb], [T_ADDPOLY, [NO_INSTANCE], []],
+                   [T_APPLY, [], []], [T_RMPOLY, [NO_INSTANCE], []],
+                   [T_SETRANGE, [g], ra]]
+        ops = ops + seq       # at the end: the polygon bookkeeping stays valid
     if temp_alt and rng.random() < 0.35:
         # replaced data with an active range: only force refreshes the mask
         f = rng.choice(sorted(temp_alt))
@@ -418,22 +479,22 @@ def gen_case(rng, thorough=False, maxops=60):
         cand = ops[:k] + seq + ops[k:]
         if temp_discipline(cand):
             ops = cand
-    case = dict(n=n, kind=kind, data=data, absent=absent, temp=temp,
-                temp_alt=temp_alt, versions=versions, reg=reg, ops=ops)
+    case = dict(n=n, kind=kind, emod=emod, data=data, absent=absent,
+                temp=temp, temp_alt=temp_alt, versions=versions, reg=reg,
+                ops=ops)
     force_replaced(case)
     return case
 
 
 def temp_discipline(ops):
     """The generator's restrictions on temporary features (ASSUMPTIONS): no
-    range edits, no force and no data replacement while deregistered, not
-    half-set at deregistration."""
+    range keys set, no force and no data replacement while deregistered."""
     keys = {}
     dereg = set()
     for t, a, _ in ops:
         f = a[0] if a else None
-        if t in RANGE_TAGS and f in dereg:
-            return False
+        if t in (T_SETRANGE, T_SETMIN, T_SETMAX) and f in dereg:
+            return False          # ConfigurationDict refuses unknown features
         if t == T_SETRANGE:
             keys[f] = {"min", "max"}
         elif t == T_DELRANGE:
@@ -446,8 +507,6 @@ def temp_discipline(ops):
         elif t == T_ADDFEAT:
             dereg.discard(f)
         elif t == T_DELFEAT:
-            if len(keys.get(f, ())) == 1:
-                return False
             dereg.add(f)
         elif t == T_REPLTEMP and f in dereg:
             return False
@@ -490,22 +549,25 @@ def force_replaced(case):
             for g in sorted(pending):
                 if g not in dereg and g not in a:
                     a.append(g)
-            raises = UNKNOWN_FEATURE in a or \
-                any(len(ks) == 1 for ks in keys.values())
-            if not raises:
-                pending.clear()        # forced, or pruned while deregistered
+            if True:
+                # forced or pruned; a failed application clears the caches
+                pending.clear()
 
 
 # --------------------------------------------------------------------------
 # implementation runner + property oracle
 # --------------------------------------------------------------------------
-def inside_fresh(ds, axes, points8):
-    """points_in_poly on fresh copies (classification is C15's business)"""
+def inside_fresh(cols, n, axes, points8):
+    """points_in_poly on fresh copies (classification is C15's business); a
+    vertex set on a feature without data classifies nothing (never used: the
+    application raises KeyError)"""
     import numpy as np
     from dclab.external.skimage.measure import points_in_poly
-    pts = np.zeros((len(ds), 2), dtype=np.float64)
-    pts[:, 0] = np.array(ds[axes[0]], dtype=np.float64)
-    pts[:, 1] = np.array(ds[axes[1]], dtype=np.float64)
+    if axes[0] not in cols or axes[1] not in cols:
+        return np.zeros(n, dtype=bool)
+    pts = np.zeros((n, 2), dtype=np.float64)
+    pts[:, 0] = np.array(cols[axes[0]], dtype=np.float64)
+    pts[:, 1] = np.array(cols[axes[1]], dtype=np.float64)
     verts = np.array(points8, dtype=np.float64) / 8.0
     return np.array(points_in_poly(points=pts, verts=verts), dtype=bool)
 
@@ -519,7 +581,7 @@ def scalar_features(ds):
     return [f for f in ds.features if dfn.scalar_feature_exists(f)]
 
 
-def reference(ds, manual):
+def reference(ds, manual, cache=None, volatile=()):
     """Stateless evaluation of the current settings; returns
     (box, invalid, polygon, qualifying) as lists of bool."""
     import math
@@ -529,8 +591,13 @@ def reference(ds, manual):
     cfg = ds.config["filtering"]
     n = len(ds)
     feats = scalar_features(ds)
-    cols = {f: [float(x) for x in np.array(ds[f], dtype=np.float64)]
-            for f in feats}
+    # the data of a feature other than a temporary one never change: read once
+    cache = {} if cache is None else cache
+    cols = {}
+    for f in feats:
+        if f in volatile or f not in cache:
+            cache[f] = [float(x) for x in np.array(ds[f], dtype=np.float64)]
+        cols[f] = cache[f]
     box = [True] * n
     for key in list(cfg.keys()):
         if not key.endswith(" min"):
@@ -556,8 +623,9 @@ def reference(ds, manual):
     for pid in cfg["polygon filters"]:
         pf = PolygonFilter.get_instance_from_id(pid)
         pts = np.zeros((n, 2), dtype=np.float64)
-        pts[:, 0] = cols[pf.axes[0]]
-        pts[:, 1] = cols[pf.axes[1]]
+        # (the data of a deregistered temporary feature stay accessible)
+        pts[:, 0] = np.array(ds[pf.axes[0]], dtype=np.float64)
+        pts[:, 1] = np.array(ds[pf.axes[1]], dtype=np.float64)
         ins = points_in_poly(points=pts, verts=np.array(pf.points,
                                                         dtype=np.float64))
         for i in range(n):
@@ -606,6 +674,16 @@ def run_impl(case, want_trace=False):
         # object is a HierarchyFilter (runs Filter.update)
         parent_ds = ds
         ds = dclab.new_dataset(parent_ds)
+    if case.get("emod"):
+        # makes the ancillary feature emodulus available (computed lazily)
+        ds.config["setup"]["channel width"] = 20.0
+        ds.config["setup"]["flow rate"] = 0.04
+        ds.config["imaging"]["pixel size"] = 0.34
+        ds.config["calculation"]["emodulus lut"] = "LE-2D-FEM-19"
+        ds.config["calculation"]["emodulus medium"] = "CellCarrier"
+        ds.config["calculation"]["emodulus temperature"] = 23.0
+        ds.config["calculation"]["emodulus viscosity model"] = \
+            "buyukurganci-2022"
     temp = case.get("temp", {})
     for name in temp:
         if not dfn.scalar_feature_exists(name):
@@ -613,7 +691,14 @@ def run_impl(case, want_trace=False):
     feats = scalar_features(ds)               # before any temporary feature
     # feature numbers are ordered like the names (np.unique sorts names)
     names = sorted(set(feats) | set(case["absent"]) | set(temp))
-    cols = {f: np.array(ds[f], dtype=np.float64) for f in feats}
+    # NO feature data are read before the last operation (lazily computed
+    # ancillary features must be computed by the code under test)
+    cols = {}
+    stats = dict(axis_only_modpoly=0, huge_limit_applied=0, raise_valueerror=0,
+                 raise_keyerror=0, raise_other=0)
+    axis_only_pending = False
+    refcache = {}
+    have_data = set(feats)
     for name, col in temp.items():
         cols[name] = np.array([fv2float(p) for p in col], dtype=np.float64)
     # alternative data of temporary features: extra columns after the names
@@ -627,6 +712,7 @@ def run_impl(case, want_trace=False):
     curtemp = {name: cols[name] for name in temp}
     versions = case["versions"]
     pfs = {}
+    pfs[NO_INSTANCE] = NO_INSTANCE
     for pid, v, inv in case["reg"]:
         ver = versions[v]
         pfs[pid] = PolygonFilter(axes=tuple(ver["axes"]),
@@ -671,10 +757,12 @@ def run_impl(case, want_trace=False):
             if not dfn.scalar_feature_exists(a[0]):
                 dclab.register_temporary_feature(a[0], is_scalar=True)
             dclab.set_temporary_feature(ds, a[0], curtemp[a[0]])
+            have_data.add(a[0])
             dirty = True
         elif tag == T_REPLTEMP:
             curtemp[a[0]] = cols[(a[0], a[1])] if a[1] else cols[a[0]]
             dclab.set_temporary_feature(ds, a[0], curtemp[a[0]])
+            have_data.add(a[0])
             dirty = True
         elif tag == T_DELFEAT:
             feat_temp.deregister_temporary_feature(a[0])
@@ -690,6 +778,9 @@ def run_impl(case, want_trace=False):
             dirty = True
         elif tag == T_MODPOLY:
             ver = versions[a[1]]
+            if ver["points"] == versions[pver[a[0]]]["points"] and \
+                    ver["axes"] != versions[pver[a[0]]]["axes"]:
+                axis_only_pending = True
             pfs[a[0]].axes = tuple(ver["axes"])
             pfs[a[0]].points = np.array(ver["points"], dtype=np.float64) / 8.0
             pver[a[0]] = a[1]
@@ -715,28 +806,44 @@ def run_impl(case, want_trace=False):
             last_all = None
         else:
             for pid, pf in pfs.items():
-                hashes.setdefault((pid, pver[pid], bool(pf.inverted)),
-                                  set()).add(pf.hash)
+                if pid != NO_INSTANCE:
+                    hashes.setdefault((pid, pver[pid], bool(pf.inverted)),
+                                      set()).add(pf.hash)
+            if axis_only_pending:
+                stats["axis_only_modpoly"] += 1
+                axis_only_pending = False
+            if cfg["enable filters"] and cfg["limit events"] >= 2 ** 32:
+                stats["huge_limit_applied"] += 1
             try:
                 ds.apply_filter(force=list(a) if a else None)
-            except ValueError as e:
-                # documented: a range with only one of its keys
+            except Exception as e:
+                # an application may only fail for a reason visible in the
+                # settings: a range of a known feature with one key, an
+                # unknown name in `force`, a polygon filter without instance
+                # or on a feature without data
                 flat += [9]
                 raised += 1
+                kind_ = ("raise_valueerror" if isinstance(e, ValueError) else
+                         "raise_keyerror" if isinstance(e, KeyError) else
+                         "raise_other")
+                stats[kind_] += 1
                 half = [k for k in cfg.keys()
-                        if (k.endswith(" min") and k[:-4] + " max" not in cfg)
-                        or (k.endswith(" max") and k[:-4] + " min" not in cfg)]
-                if not half and UNKNOWN_FEATURE not in a and fail is None:
+                        if dfn.scalar_feature_exists(k[:-4]) and
+                        ((k.endswith(" min") and k[:-4] + " max" not in cfg)
+                         or (k.endswith(" max")
+                             and k[:-4] + " min" not in cfg))]
+                badpoly = [pid for pid in cfg["polygon filters"]
+                           if pid == NO_INSTANCE or any(
+                               ax not in have_data for ax in pfs[pid].axes)]
+                if not half and not badpoly and UNKNOWN_FEATURE not in a \
+                        and fail is None:
                     fail = ("op %d: apply_filter raised %r although every "
-                            "range has both keys and `force` names known "
-                            "features" % (i, e))
+                            "range of a known feature has both keys, `force` "
+                            "names known features and every polygon filter "
+                            "exists on features with data" % (i, e))
                 spec_flat += [9]
+                last_all = None
                 continue
-            except Exception as e:
-                flat += [8]
-                if fail is None:
-                    fail = "op %d: apply_filter raised %r" % (i, e)
-                break
             applies += 1
             if applies > 1 and dirty:
                 changed_between = True
@@ -758,7 +865,8 @@ def run_impl(case, want_trace=False):
                     and not any(s and not q for s, q in zip(got["all"], pre)):
                 choice.setdefault((sum(pre), cfg["limit events"]),
                                   ranks_of(got["all"], pre))
-            box, invalid, polygon, qual = reference(ds, flt.manual)
+            box, invalid, polygon, qual = reference(ds, flt.manual, refcache,
+                                                    temp)
             spec_obs.append((box, invalid, polygon, qual,
                              bool(cfg["enable filters"]),
                              int(cfg["limit events"])))
@@ -817,10 +925,19 @@ def run_impl(case, want_trace=False):
                 fail = "op %d (application %d): %s" % (i, applies, msg)
     # rows for the model: per event the feature values and the raw inside
     # bits of every vertex set
-    ins = [inside_fresh(ds, ver["axes"], ver["points"]) for ver in versions]
+    # only now: the data of the dataset's own features
+    for f in feats:
+        cols[f] = np.array(ds[f], dtype=np.float64)
+
+    def enc(f, x):
+        if f in OPAQUE and np.isfinite(x):
+            return [0, 0]
+        return float2fv(float(x))
+    ins = [inside_fresh(cols, n, ver["axes"], ver["points"])
+           for ver in versions]
     rows = []
     for e in range(n):
-        rows.append(([float2fv(float(cols[f][e])) if f in cols else [1, 0]
+        rows.append(([enc(f, cols[f][e]) if f in cols else [1, 0]
                       for f in names + altcols],
                      [bool(x[e]) for x in ins]))
     # the specification's observation, from the stateless reference
@@ -849,7 +966,7 @@ def run_impl(case, want_trace=False):
                nontrivial=bool(proper and changed_between),
                feats=feats, names=names, altcols=altcols, rows=rows,
                choice=choice, hashes=hashes, applies=applies, raised=raised,
-               spec_flat=sflat, choice_conflict=choice_conflict)
+               spec_flat=sflat, choice_conflict=choice_conflict, stats=stats)
     if want_trace:
         res["trace"] = trace
     PolygonFilter.clear_all_filters()
@@ -880,6 +997,9 @@ def render(case, res, variant=VARIANT):
     altid = {nk: len(names) + i for i, nk in enumerate(res["altcols"])}
     feats = common.zlist(nid[f] for f in res["feats"])
     known = common.zlist(range(len(names)))
+    vax = tlist(("(%d, %s)" % (i, common.zlist(nid.get(a_, UNKNOWN_ID)
+                                                for a_ in ver["axes"]))
+                 for i, ver in enumerate(case["versions"])), "Z * list Z")
     reg = tlist(("(%d, (%d, %d))" % (pid, v, inv)
                  for pid, v, inv in case["reg"]), "Z * (Z * Z)")
     tab = tlist(("(%d, %d, %s)" % (m, k, common.zlist(r))
@@ -899,8 +1019,8 @@ def render(case, res, variant=VARIANT):
                                      tlist((common.zlit(x) for x in ints),
                                            "Z"),
                                      tlist((r_fv(p) for p in fv), "Z * Z")))
-    return "(%d, %s, %s, %s, %s, %s, %s)" % (variant, rows, feats, known, reg,
-                                              tab, common.clist(ops))
+    return "(%d, %s, %s, %s, %s, %s, %s, %s)" % (
+        variant, rows, feats, known, vax, reg, tab, common.clist(ops))
 
 
 HEADER = ("From Coq Require Import ZArith List Bool.\nImport ListNotations.\n"
@@ -997,6 +1117,26 @@ def exhaustive_cases():
             yield dict(base, ops=ops)
 
 
+def _impl_full(case):
+    res = run_impl(case)
+    rend = render(case, res)
+    res.pop("rows", None)
+    return res, rend
+
+
+def _pool_map(run, fn, cases, chunksize=8):
+    """run the implementation on the cases in worker processes (the lazily
+    computed emodulus costs seconds per dataset)"""
+    import multiprocessing
+    try:
+        ctx = multiprocessing.get_context("fork")
+        with ctx.Pool(min(12, common.NCPU)) as pool:
+            return pool.map(fn, cases, chunksize=chunksize)
+    except Exception as e:      # no fork / pool: serial
+        run.notes.append("implementation ran serially: %r" % (e,))
+        return [fn(c) for c in cases]
+
+
 def _impl_job(case):
     res = run_impl(case)
     return res["flat"], render(case, res), res["fail"], res["nontrivial"]
@@ -1046,14 +1186,30 @@ def run(run):
     impl = []
     impl_spec = []
     allpairs = {}
-    for c in cases:
-        res = run_impl(c)
+    results = _pool_map(run, _impl_full, cases)
+    for c, (res, rend) in zip(cases, results):
         impl.append(res["flat"])
         impl_spec.append(res["spec_flat"])
-        rendered.append(render(c, res))
+        rendered.append(rend)
         run.record_case(c, res["nontrivial"])
         run.count("events=%d" % c["n"])
         run.count("dataset:" + c.get("kind", "dict"))
+        for key, val in res["stats"].items():
+            run.count("applies:" + key, val)
+        if c.get("emod"):
+            run.count("cases:lazy-emodulus")
+        if "area_msd" in c["data"]:
+            run.count("cases:computed-area_ratio")
+        if any(f.startswith("ml_score") for f in c["data"]):
+            run.count("cases:ml_score")
+        if c.get("temp"):
+            run.count("cases:temporary-features")
+        if any(a_ in c.get("temp", {}) for v_ in c["versions"]
+               for a_ in v_["axes"]):
+            run.count("cases:polygon-on-temporary-feature")
+        if any(a_ in c["absent"] for v_ in c["versions"]
+               for a_ in v_["axes"]):
+            run.count("cases:polygon-on-absent-feature")
         run.count("features=%d" % len(res["feats"]))
         run.count("applies", res["applies"])
         run.count("applies-that-raised", res["raised"])
